@@ -1,14 +1,18 @@
 (* Proof obligations over facts regenerated from /repo on every check (Generated/SourceFacts.v,
-   written by harness/cmd/facts).  Topic: server.  When an edit of the sources changes a fact, the
-   lemma below stops compiling; the checks of the properties that depend on this topic then report
+   written by harness/cmd/facts).  Topic: server.  The facts are semantic summaries (orders, literal
+   sets, capacity classes, parent classes of contexts, lock events per path), so a behaviour-
+   preserving rewrite regenerates the same facts; when an edit changes what the theorems rest on,
+   the lemma below stops compiling, the checks of the properties that depend on this topic report
    the broken obligation by name and search for a failing input. *)
 From Coq Require Import List String ZArith Bool.
 Import ListNotations.
 Require Import Verif.Common.LockEv Verif.Generated.SourceFacts.
+
 Open Scope string_scope.
 
-(* the runner selects between the listener's result and the cancellation, shuts down with a
-   background context (not the cancelled one); the done channel is unbuffered *)
-Lemma runserver_ok : runserver_select = ["err := <-done"; "<-ctx.Done()"] /\
-  runserver_shutdown_arg = "context.Background()" /\ runserver_done_cap = "0".
+(* the runner waits on exactly two things - a message from the serving goroutine and the
+   cancellation - shuts down with a background context (not the cancelled one), and the channel of
+   the serving goroutine is unbuffered (select cases as a sorted set: their order has no meaning) *)
+Lemma runserver_ok : runserver_select = ["ctx-done"; "recv"] /\
+  runserver_shutdown_arg = "background" /\ runserver_done_cap = "unbuffered".
 Proof. repeat split; reflexivity. Qed.
